@@ -84,6 +84,15 @@ func c01Programs(th bool) []map[string]interface{} {
 	out = append(out, graphCase(shadow, []string{"x:2,2", "w:2,2"}, inits, []string{"o"}, []string{"x", "w"}))
 	out = append(out, graphCase(shadow, []string{"x:2,2", "w:2,2"}, inits, []string{"o", "w"}, []string{"x"}))
 	out = append(out, graphCase([]gnode{{"Gemm", "x,w,b", "o", ""}}, []string{"x:2,2", "b:2"}, inits, []string{"o", "b"}, []string{"x", "b"}))
+	// ... and two Runs on one Model: the default overridden, then left alone again (and the other way round)
+	for _, pair := range [][2][]string{{{"x", "w"}, {"x"}}, {{"x"}, {"x", "w"}}} {
+		cm := graphCase(shadow, []string{"x:2,2", "w:2,2"}, inits, []string{"o", "w"}, pair[0])
+		cm["supplied2"] = pair[1]
+		out = append(out, cm)
+	}
+	cm2 := graphCase([]gnode{{"Gemm", "x,w,b", "o", ""}}, []string{"x:2,2", "b:2"}, inits, []string{"o"}, []string{"x", "b"})
+	cm2["supplied2"] = []string{"x"}
+	out = append(out, cm2)
 	// outputs that are graph inputs / initializers / never produced; a node reading a name that does not exist
 	out = append(out, graphCase(shadow, inputs, inits, []string{"x", "w", "o"}, sup))
 	out = append(out, graphCase(shadow, inputs, inits, []string{"o", "nowhere"}, sup))
@@ -120,6 +129,10 @@ func c01Programs(th bool) []map[string]interface{} {
 		ri := []string{"W:1,2,2", "R:1,2,2", "B:1,4"}
 		out = append(out, graphCase([]gnode{{"RNN", "X,W,R,B", ",q", "hidden_size=2"}, {"RNN", "X,W,R,B,,q", "y2,q2", "hidden_size=2"}}, rin, ri, []string{"q", "y2", "q2"}, []string{"X"}))
 		out = append(out, graphCase([]gnode{{"LSTM", "X,W4,R4", "p,,r", "hidden_size=2"}, {"GRU", "X,W3,R3,,,r", "y2", "hidden_size=2"}, {"Add", "p,y2", "o", ""}}, rin, []string{"W4:1,8,2", "R4:1,8,2", "W3:1,6,2", "R3:1,6,2"}, []string{"o", "r"}, []string{"X"}))
+	}
+	// an initial state shared by two recurrent nodes (and handed out as a graph output), the other state left out
+	for _, ins := range []string{"X,W4,R4,,,,s0", "X,W4,R4,,,s0"} {
+		out = append(out, graphCase([]gnode{{"LSTM", ins, "p", "hidden_size=2"}, {"LSTM", ins, "q", "hidden_size=2"}, {"Add", "p,q", "o", ""}}, rin, []string{"W4:1,8,2", "R4:1,8,2", "s0:1,2,2"}, []string{"o", "s0"}, []string{"X"}))
 	}
 	// a tensor read by a node that scales it (Gemm's C with beta != 1, alpha != 1) and read again afterwards
 	out = append(out, graphCase([]gnode{{"Gemm", "x,w,c2", "s", "beta=2;alpha=3"}, {"Add", "s,c2", "o", ""}, {"Mul", "x,w", "o2", ""}}, inputs, []string{"w:2,2", "c2:2,2"}, []string{"o", "s", "o2"}, sup))
@@ -167,7 +180,7 @@ func init() {
 			p.Jobs = append(p.Jobs, Job{Harness: "gonnx.H_C01", Case: c})
 		}
 		p.Bounds = []string{
-			"programs: every 1-node graph over {Add, Sub, Mul, Relu, Transpose, MatMul, Gemm x3 attribute sets} x input pairs from {x, y, w}; 2-node chains/fan-out/fan-in over the same alphabet (half of the operator pairs in quick, all in thorough); 8 three-node shapes (diamond, chains, shared inputs, one operator type three times with different attributes, Concat); graphs with an initializer that is also a graph input (supplied / not supplied), outputs that are inputs or initializers, never-produced outputs, dangling and late names, an unknown operator; RNN/GRU/LSTM nodes with arbitrary, permuted, partly omitted and empty output names and skipped optional inputs; Constant nodes",
+			"programs: every 1-node graph over {Add, Sub, Mul, Relu, Transpose, MatMul, Gemm x3 attribute sets} x input pairs from {x, y, w}; 2-node chains/fan-out/fan-in over the same alphabet (half of the operator pairs in quick, all in thorough); 8 three-node shapes (diamond, chains, shared inputs, one operator type three times with different attributes, Concat); graphs with an initializer that is also a graph input (supplied / not supplied / supplied in one Run and not in the next), outputs that are inputs or initializers, never-produced outputs, dangling and late names, an unknown operator; RNN/GRU/LSTM nodes with arbitrary, permuted, partly omitted and empty output names and skipped optional inputs; Constant nodes",
 			"all caller inputs and initializers are (2,2)/(2)/(2,2,2) float32 tensors whose every element is a solver variable (exact real arithmetic); every intermediate name is also declared a graph output",
 			"oracle: an independent evaluator in the harness (its own name environment, results bound by position, its own tensor objects) driving the same operator implementations",
 		}
